@@ -131,6 +131,13 @@ package actionlint
 //@ func (*parser).parseJob
 //@   ensures [C13] result.WorkflowCall == nil && result.Steps == nil ==> len(p.errors) > old(len(p.errors))
 //@   ensures [C13] result.WorkflowCall == nil && result.RunsOn == nil ==> len(p.errors) > old(len(p.errors))
+// ... and the report of a missing mandatory key of a job without `uses:` stands at the job's name, whatever
+// else is wrong with the job (reportedAt: the positions errorfAt was called with)
+//@ ghost reportedAt: set<ref>
+//@ func (*parser).errorfAt
+//@   effect reportedAt[pos] = true
+//@ func (*parser).parseJob
+//@   at_return [C13] call.Uses == nil && (ret.Steps == nil || ret.RunsOn == nil) ==> reportedAt[id.Pos]
 //@ func (*parser).parseStep
 //@   ensures [C13] result.Exec == nil ==> len(p.errors) > old(len(p.errors))
 //@   ensures [C13] istype(result.Exec, "*ExecRun") && dyn(result.Exec, "*ExecRun").Run == nil ==> len(p.errors) > old(len(p.errors))
